@@ -1186,18 +1186,21 @@ class Evaluator:
                     if _exc_matches(ex.exc, names):
                         caught = (h, names)
                         break
-            if fell_through:
-                # exits form an ordered decision list: a later exit of the body is reached only if none of those raises happened
-                ex = Exit(tuple(ex.guard) + tuple(fell_through), ex.kind, ex.value, ex.node, ex.func, ex.exc, facts=ex.facts)
             if caught is None:
+                if fell_through:
+                    # exits form an ordered decision list: a later exit of the body is reached only if none of those raises happened
+                    ex = Exit(tuple(ex.guard) + tuple(fell_through), ex.kind, ex.value, ex.node, ex.func, ex.exc, facts=ex.facts)
                 new_exits.append(ex)
                 continue
             extra = list(ex.guard[len(fr.guard):])
             fh, hd, hexits = run_handler(caught[0], caught[1], extra, [])
+            if fell_through:
+                hexits = [Exit(tuple(x.guard) + tuple(fell_through), x.kind, x.value, x.node, x.func, x.exc, facts=x.facts) for x in hexits]
             new_exits.extend(hexits)
             results.append((tm.land(extra), fh, hd))
             if not hd:
-                g_ = tm.lnot(tm.land(list(ex.guard[len(fr.guard):])))
+                # (the guards of handler flows that rejoin stay as they are: the joined values nest in this order anyway)
+                g_ = tm.lnot(tm.land(extra))
                 if g_ is not True:
                     fell_through.append(g_)
         abrupt_finally = bool(st.finalbody) and any(isinstance(n, (ast.Return, ast.Raise, ast.Break, ast.Continue)) for b in st.finalbody for n in ast.walk(b))
@@ -2516,9 +2519,20 @@ class Evaluator:
         opaque = q in self.policy.opaque or (self.policy.opaque_pred and self.policy.opaque_pred(q))
         recursive = q in self._stack or fi.qualname in self._stack
         if recursive and bound is not None and not opaque:
-            # a function calling itself (iteration written as recursion): inlined as long as the total budget lasts, whatever the
-            # nesting depth; recursion that never reaches a decided base case runs into the budget and stays opaque from there
-            self._rec_budget = getattr(self, "_rec_budget", 400) - 1
+            # a function calling itself (iteration written as recursion) is inlined beyond the usual nesting limit only while it
+            # makes progress on something concrete: some argument of known structure (a list / tuple / dict of known length, a
+            # concrete number or string) differs from what the enclosing activation of the same function received. Recursion
+            # over purely symbolic arguments (a parser calling itself on an unknown buffer) keeps the old limit.
+            prev = self.__dict__.setdefault("_rec_args", {}).get(fi.qualname)
+            progress = prev is not None and any(
+                isinstance(v_, (list, tuple, dict, int, bytes, str)) and not isinstance(v_, bool) and k_ in prev[-1] and
+                not (isinstance(prev[-1][k_], type(v_)) and tm.veq(tm.freeze(v_) if isinstance(v_, (list, tuple, dict)) else v_,
+                                                                  tm.freeze(prev[-1][k_]) if isinstance(prev[-1][k_], (list, tuple, dict)) else prev[-1][k_]))
+                for k_, v_ in bound.items())
+            if progress:
+                self._rec_budget = getattr(self, "_rec_budget", 400) - 1
+            else:
+                recursive = False
         too_deep = (fr.depth >= self.policy.max_depth or self._stack.count(q) >= 4) if not recursive else (getattr(self, "_rec_budget", 400) <= 0 or self._stack.count(q) >= 80)
         if bound is None or opaque or too_deep:
             rty = ann_type(fi.node.returns)
@@ -2536,7 +2550,11 @@ class Evaluator:
             r = tm.app(q, pos, tuple(sorted(kw.items())), ty=rty)
             self._opaque_log.append(r)
             return r
-        sub = self.run(fi, bound, depth=fr.depth if recursive else fr.depth + 1, closure_env=closure_env)
+        self.__dict__.setdefault("_rec_args", {}).setdefault(fi.qualname, []).append(dict(bound))
+        try:
+            sub = self.run(fi, bound, depth=fr.depth if recursive else fr.depth + 1, closure_env=closure_env)
+        finally:
+            self._rec_args[fi.qualname].pop()
         self._copy_out(fi, sub, e, fr, skip_self)
         fr.summary.loops.extend(sub.loops)
         fr.summary.hazards.extend((h[0], h[1], h[2], tuple(fr.guard) + tuple(h[3]), tuple(fr.facts) + tuple(h[4]), h[5],
